@@ -46,6 +46,7 @@ fn main() {
         "C05" => props::c05::run(&mut ctx),
         "C06" => props::c06::run(&mut ctx),
         "C07" => props::c07::run(&mut ctx),
+        "C08" => props::c08::run(&mut ctx),
         "C09" => props::c09::run(&mut ctx),
         "C10" => props::c10::run(&mut ctx),
         "C11" => props::c11::run(&mut ctx),
